@@ -45,6 +45,14 @@ func buildScenarios(c *vkit.Ctx) []e2e.Scenario {
 		sc.BatchLogs = []int{5, 6, 8, 13, 20}[r.Intn(5)]
 		out = append(out, sc)
 	}
+	// More runs of the gate script: whether a client that sees both "a chunk is ready" and "the input is closed" takes the chunk
+	// is the runtime's coin (select), so one run produces the overlap only every other time.
+	for j := 0; j < c.N(9, 30); j++ {
+		r := c.Rand("scenario", n+j)
+		sc := e2e.GenScenario(r, "stop-while-forwarding", n+j, e2e.Opt{Kinds: []string{"plain", "plain", "plain", "drop", "esc"}, MaxRecs: 60})
+		sc.BatchLogs = []int{5, 6, 8, 13, 20}[r.Intn(5)]
+		out = append(out, sc)
+	}
 	return out
 }
 
@@ -327,5 +335,6 @@ func main() {
 	c.Require("retransmitted_chunks", 3)
 	c.Require("generations_with_recovery", 2)
 	c.Require("persistent_inputs", 3)
+	c.Require("stop_while_forwarding_runs", 8)
 	c.Finish()
 }
